@@ -411,11 +411,24 @@ impl<P: Property> Batch<P> {
                 let done = done.clone();
                 let me = self;
                 scope.spawn(move || {
+                    // (index, how long it has been the current run) -- an absolute ceiling per run, far above anything a
+                    // run on the unchanged tree needs, so that a runaway on a mutated tree cannot stall a batch for hours
+                    let mut same_run: Vec<(u64, u32)> = vec![(0, 0); watch.slots.len()];
                     let mut last: Vec<((u64, u64), u32)> = vec![((0, 0), 0); watch.slots.len()];
                     while done.load(Ordering::Acquire) == 0 {
                         std::thread::sleep(std::time::Duration::from_millis(250));
                         for (w, slot) in watch.slots.iter().enumerate() {
                             let cur = slot.load(Ordering::Acquire);
+                            if cur != 0 && cur == same_run[w].0 {
+                                same_run[w].1 += 1;
+                                if same_run[w].1 as u64 >= 600 * 4 {
+                                    let index = cur - 1;
+                                    let s = me.scenario(index);
+                                    report_hang::<P>(me.seed, index, &s);
+                                }
+                            } else {
+                                same_run[w] = (cur, 0);
+                            }
                             let beat = BEATS[w.min(62)].0.load(Ordering::Relaxed);
                             if cur != 0 && (cur, beat) == last[w].0 {
                                 last[w].1 += 1;
